@@ -3,6 +3,7 @@ and syntactic; every application is logged into the evidence file."""
 from rewrite import Rule
 
 R = {}
+_CMP = (('<', 'lt'), ('<=', 'le'), ('>', 'gt'), ('>=', 'ge'))
 
 
 def add(group, *rules):
@@ -149,9 +150,9 @@ add('COPY',
 add('RET', Rule('X-RET', 'BlockRet::WaitForStream(&self.$f:i, $n:e)', 'BlockRet::WaitForStream(self.$f.wait_id(), $n)'))
 
 # X-TAGFILTER: iterator adapters are outside Verus.
-add('TAGFILTER',
-    Rule('X-TAGFILTER', '$ts:i.into_iter().filter(|t| t.pos() < $n:e).collect()', 'filter_tags_before($ts, $n)'),
-    Rule('X-TAGFILTER', '$ts:i.iter().filter(|t| t.pos() < $n:e).cloned().collect()', 'filter_tags_before_ref(&$ts, $n)'))
+_CMP = (('<', 'lt'), ('<=', 'le'), ('>', 'gt'), ('>=', 'ge'))
+add('TAGFILTER', *[Rule('X-TAGFILTER', '$ts:i.into_iter().filter(|t| t.pos() %s $n:e).collect()' % op,
+                        'filter_tags_before($ts, $n)' if nm == 'lt' else 'filter_tags_%s($ts, $n)' % nm) for op, nm in _CMP])
 
 # X-SUBSLICE: Vec indexed by a range
 add('SUBSLICE', Rule('X-SUBSLICE', '&$v:p[$a:e..($b:e)]', 'subslice(&$v, $a, $b)'),
@@ -165,3 +166,11 @@ add('EXTEND2', Rule('X-EXTEND2', '$t:i.extend([$a:e, $b:e $_:c]);', '$t.push($a)
 
 # X-CONSTSTR: inside verus! a const is lowered to a function, which needs the elided lifetime spelled out
 add('CONSTSTR', Rule('X-CONSTSTR', 'const $n:i: &str', "const $n: &'static str"))
+
+# X-FIR: FirFilter::work -- the FIR kernel call over sub-slices of the two windows, and the two tag closures
+add('FIR',
+    Rule('X-FIR', '$f:p.filter_n_inplace(&$i:i.slice()[..$a:e], $d:e, &mut $o:i.slice()[..$b:e])',
+         'fir_filter_n_inplace(&$f, &$i, $a, $d, &mut $o, $b)'),
+    *[Rule('X-FIR', '$ts:i.retain(|t| t.pos() %s $n:e);' % op,
+           'retain_tags_before(&mut $ts, $n);' if nm == 'lt' else 'retain_tags_%s(&mut $ts, $n);' % nm, stmt_start=True) for op, nm in _CMP],
+    Rule('X-FIR', '$ts:i.iter_mut().for_each(|t| t.set_pos(t.pos() / $d:e));', 'div_tag_pos(&mut $ts, $d);', stmt_start=True))
